@@ -21,6 +21,15 @@ CLAIMED = {
         "values, dtype) and against the declarative addressing clause by TLC (Trace_C03).",
    note="Values are integer tags; a supplied linear name equal to a remaining dimension is outside the quantifier.",
    ref="5 C03"),
+ "C06": dict(
+   text="TLC checks the operational polygon constructors of Geometry.tla (1-D bounds lookup / midpoint synthesis, 2-D bounds "
+        "lookup / neighbour-mean synthesis with the NaN rules, Arakawa node slicing, UGRID listed order, GEOS-like ring "
+        "validity, extent fast paths) against the declarative statements of the property on a bounded universe of coordinate "
+        "arrays (it found the isolated-NaN-centre defect at design level); recorded polygons, mask, warnings, bounds and "
+        "geometry (area, bbox, membership of lattice sample points) of generated datasets of every convention are validated "
+        "against those constructors and against the declarative missing-coordinate clause by TLC (Trace_C06).",
+   note="Exact lattice coordinates only (2^-6 degree quanta); collapsed synthesised rings are skipped per clause; GEOS computes the union.",
+   ref="5 C06"),
 }
 PENDING_REASON = "check not built yet in this round (specification and binding under construction; see DESIGN.md section 13)"
 props = [json.loads(l) for l in (V / "properties.jsonl").read_text().splitlines() if l.strip()]
